@@ -225,7 +225,8 @@ def run(ctx) -> None:
         "is replayed through a fake multiprocessing.Pool into the real entry point; non-trivial = order differs "
         "from task order; distinct = (entry point, W, order)"
     )
-    ctx.assume("fake Pool hands tasks out in order with chunksize 1 and pickles functions/arguments/results; "
+    ctx.assume("fake Pool hands tasks out in order and pickles functions/arguments/results (the library uses chunksize 1; a chunksize > 1 "
+               "is honoured like multiprocessing does it: a chunk is evaluated as a whole and its results are pickled together); "
                "validated against the real Pool in the thorough tier (PoolMapTrace)")
     ctx.assume("tasks of one parallel map touch disjoint files (true for Patch(), BinnedTrees.build); "
                "executing them one after the other in completion order is then equivalent to any true overlap")
@@ -283,17 +284,18 @@ def run(ctx) -> None:
                 ctx.evaluated(1, ("count_auto", W, order) if list(order) != sorted(order) else None)
                 ctx.validated(1)
                 check_outcome(ctx, "count_auto", W, nt_auto, calls, outcome, base)
-        # many patch pairs per worker (7 fully linked patches: 49 cross / 28 auto jobs): dispatch in batches must not lose jobs
-        w7 = World(root / "pc7", ctx.seed + 200, 7, 70 if quick else 140, closed="right", sep_deg=0.2)
+        # many patch pairs per worker (9 densely linked patches: >= 64 cross jobs, >= 32 jobs per worker for W = 2): dispatch in
+        # batches (a chunksize heuristic) must neither lose jobs nor let results of one batch share state
+        w7 = World(root / "pc7", ctx.seed + 200, 9, 90 if quick else 180, closed="right", sep_deg=0.15)
         w7.prepare_trees()
-        ctx.extra["pair_tasks_7_patches"] = dict(auto=len(w7.links.get_patch_pairs(w7.cref)), cross=len(w7.links.get_patch_pairs(w7.cref, w7.cunk)))
+        ctx.extra["pair_tasks_9_patches"] = dict(auto=len(w7.links.get_patch_pairs(w7.cref)), cross=len(w7.links.get_patch_pairs(w7.cref, w7.cunk)))
         for ep in ("count_cross", "count_auto"):
             base7 = getattr(w7, f"ep_{ep}")(1)
             for W in ((2, 3) if quick else (2, 3, 4, 5, 8)):
                 for r in range(2 if quick else 6):
                     sub = random.Random(rng.random())
                     outcome, calls, _ = run_with_orders(w7, ep, W, lambda i, w, nt, sub=sub: feasible_random(sub, w, nt))
-                    ctx.evaluated(1, (ep, "7patches", W, tuple(c[2] for c in calls)))
+                    ctx.evaluated(1, (ep, "9patches", W, tuple(c[2] for c in calls)))
                     ctx.validated(1)
                     check_outcome(ctx, ep, W, None, calls, outcome, base7)
         # composite entry points with one random feasible order per internal call
